@@ -106,6 +106,9 @@ func runSolo(trs []*Trace) ([]uint64, []*Violation) {
 	return ds, vs
 }
 
+// nestedSteps counts steps of one world made inside another world's notification (evidence).
+var nestedSteps int
+
 // runInterleaved steps all engines in one goroutine; the sched stream picks who moves.
 func runInterleaved(trs []*Trace, seed uint64) ([]uint64, []*Violation, int) {
 	n := len(trs)
@@ -126,6 +129,31 @@ func runInterleaved(trs []*Trace, seed uint64) ([]uint64, []*Violation, int) {
 			left++
 		}
 	}
+	// nested interleaving: while one world is in the middle of delivering an event, another world makes a whole step
+	// (a listener that drives a second simulation, or simply two simulations whose callbacks call into each other)
+	rn := NewRng(seed, StreamFault)
+	depth := 0
+	for i := range es {
+		i := i
+		es[i].S.OnNotify = func() {
+			if depth > 0 || rn.Intn(3) != 0 {
+				return
+			}
+			j := rn.Intn(n)
+			if j == i || done[j] || pos[j] >= len(trs[j].Steps) {
+				return
+			}
+			depth++
+			nestedSteps++
+			if v := es[j].StepOnce(trs[j], pos[j]); v != nil {
+				vs[j], done[j] = v, true
+				left--
+			} else {
+				pos[j]++
+			}
+			depth--
+		}
+	}
 	switches := 0
 	last := -1
 	for left > 0 {
@@ -144,11 +172,16 @@ func runInterleaved(trs []*Trace, seed uint64) ([]uint64, []*Violation, int) {
 			continue
 		}
 		if v := es[i].StepOnce(trs[i], pos[i]); v != nil {
-			vs[i], done[i] = v, true
-			left--
+			if !done[i] {
+				vs[i], done[i] = v, true
+				left--
+			}
 			continue
 		}
 		pos[i]++
+	}
+	for i := range es {
+		es[i].S.OnNotify = nil
 	}
 	ds := make([]uint64, n)
 	for i := range es {
@@ -228,6 +261,7 @@ type c19Sum struct {
 	Worlds   int            `json:"worlds"`
 	Steps    int            `json:"steps"`
 	Switches int            `json:"switches"`
+	Nested   int            `json:"nested"`
 	Shared   int            `json:"shared"`
 	Digests  []uint64       `json:"digests"`
 	Foreign  map[string]int `json:"foreign"`
@@ -266,6 +300,7 @@ func c19Worker(args []string) int {
 		sum.Groups++
 		sum.Worlds += len(trs)
 		sum.Switches += sw
+		sum.Nested = nestedSteps
 		for i, tr := range trs {
 			sum.Steps += len(tr.Steps)
 			if i > 0 && len(tr.Plan.Types) > 0 && tr.Plan.Types[0].UID < 2000 {
@@ -450,6 +485,7 @@ func specialC19(args []string) int {
 						total.Worlds += s.Worlds
 						total.Steps += s.Steps
 						total.Switches += s.Switches
+						total.Nested += s.Nested
 						total.Shared += s.Shared
 						for _, d := range s.Digests {
 							distinct[d] = struct{}{}
@@ -568,6 +604,7 @@ func specialC19(args []string) int {
 				"worlds":                                 total.Worlds,
 				"simulated_steps":                        total.Steps,
 				"context_switches":                       total.Switches,
+				"steps_nested_inside_another_worlds_notification": total.Nested,
 				"worlds_sharing_go_types_in_other_order": total.Shared,
 				"race_groups":                            raceGroups,
 				"race_build_available":                   raceAvailable,
